@@ -62,6 +62,7 @@ class Scenario:
         self.max_group_perm = max_group_perm
         self.context = None               # surroundings of the run (p_sched.apply_context)
         self.close_streams = False        # every child closes stdout and stderr as soon as it has started
+        self.binary_output = False        # every child prints bytes that are not valid UTF-8
 
     def describe(self):
         return {
@@ -70,14 +71,15 @@ class Scenario:
             "args": self.args, "commands": self.commands, "checkpoint": self.checkpoint,
             "changed": self.changed, "faults": [[c, t, code] for (c, t), code in sorted(self.faults.items())],
             "eager": sorted(list(e) for e in self.eager), "explicit": self.explicit, "deps": self.deps,
-            "sequences": self.sequences, "context": self.context, "close_streams": self.close_streams,
+            "sequences": self.sequences, "context": self.context, "close_streams": self.close_streams, "binary_output": self.binary_output,
         }
 
     @staticmethod
     def from_desc(d):
         sn = Scenario._from_desc(d)
         sn.context = d.get("context")
-        sn.close_streams = bool(d.get("close_streams"))
+        sn.close_streams = d.get("close_streams") or False   # True (every child) or a list of target paths
+        sn.binary_output = bool(d.get("binary_output"))
         return sn
 
     @staticmethod
@@ -165,12 +167,15 @@ def run_once(s, r, sn, groups, prefix, extra_env=None, on_group_complete=None):
         cmd_index = {cmd: i for i, cmd in enumerate(sn.commands)}
         by_child = {}
 
+        def closes(pr):
+            return sn.close_streams is True or (isinstance(sn.close_streams, (list, tuple)) and pr[1] in sn.close_streams)
+
         def note():
             for ch in c.children:
                 if ch.id not in by_child:
                     pr = pair_of(r, ch)
                     by_child[ch.id] = pr
-                    if sn.close_streams:
+                    if closes(pr):
                         # the executable closes (redirects) both of its output streams and keeps running
                         c.send(ch, ["closeout", "closeerr"])
                     ex.arrive.setdefault(pr, []).append(ch.arrive_seq)
@@ -180,12 +185,16 @@ def run_once(s, r, sn, groups, prefix, extra_env=None, on_group_complete=None):
         def do_release(ch):
             pr = by_child[ch.id]
             code = sn.faults.get(pr, 0)
-            if sn.close_streams:
+            if closes(pr):
                 # it keeps running for a while with both streams closed: anything that takes "both
                 # streams ended" for "the process ended" has time to act on that belief
                 c.wait(lambda: p.done(), 0.45)
                 note()
-            c.release(ch, code, ["out " + ctlmod.hexs("%s:%s out\n" % pr), "err " + ctlmod.hexs("%s:%s err\n" % pr)])
+            lines_ = ["out " + ctlmod.hexs("%s:%s out\n" % pr), "err " + ctlmod.hexs("%s:%s err\n" % pr)]
+            if sn.binary_output:
+                # Latin-1 text and raw binary: neither line is valid UTF-8
+                lines_ += ["out " + b"caf\xe9 au lait\n\xff\xfe\x00\x80\n".hex(), "err " + b"\xc3\x28 broken\n".hex()]
+            c.release(ch, code, lines_)
             ex.release[pr] = ch.release_seq
             ex.codes[pr] = code
             c.wait(lambda: ch.state == "gone" or p.done(), 10)
@@ -256,9 +265,22 @@ def run_once(s, r, sn, groups, prefix, extra_env=None, on_group_complete=None):
         # after a failure the run is expected to end by itself within milliseconds; a run that keeps
         # going (and then blocks on children nobody releases) is cut off after a short horizon
         t_end = time.time() + (5 if failed else 20)
+        t_fail = time.time()
+        survivors_released = False
         while not p.done() and time.time() < t_end:
             c.pump(0.02)
             note()
+            if failed and sn.close_streams and not survivors_released and time.time() - t_fail > 1.0:
+                # a sibling that has closed its output streams cannot be stopped through them: monorail
+                # waits for it to exit. Let the ones that were already running end now (exit 0); anything
+                # that arrives later is still left alone and seen by the monitors.
+                survivors_released = True
+                for ch in list(c.waiting()):
+                    if ch.id in by_child and closes(by_child[ch.id]):
+                        c.release(ch, 0)
+                        ex.release[by_child[ch.id]] = ch.release_seq
+                        ex.codes[by_child[ch.id]] = 0
+                t_end = time.time() + 5
             if not failed:
                 for ch in c.waiting():
                     # unexpected late arrival: release it so the run can end; monitors see the events
